@@ -41,7 +41,7 @@ Section Main.
   Variables vzero vone : V.
   Hypothesis Hzero : veqb vzero vzero = true.
   Hypothesis Hone : veqb vone vzero = false.
-  Variables (a b c r2 : Z) (d2 : nat -> nat -> Z).
+  Variables (a b ca r2 : Z) (d2 : nat -> nat -> Z).
   Variables (tshape : list Z) (dtype : D) (multi : bool) (k : nat).
   Variables (rows : list (list V)) (mrows : option (list (list bool))).
   Variables (vin vout : list bool) (fill : option V) (sentinel : V).
@@ -51,7 +51,7 @@ Section Main.
     forall s, valid_at vin s -> forall v, In v (nth s rows []) -> veqb v sentinel = false.
   Variable knn : list nat -> nat -> nat.
   Hypothesis Hknn : forall t, valid_at vout t ->
-    knn_spec_tol a b c r2 (d2 t) (compact vin) (knn (compact vin) t).
+    knn_spec_tol a b ca r2 (d2 t) (compact vin) (knn (compact vin) t).
 
   Let o := resample_nn veqb vzero vone knn tshape dtype multi k rows mrows vin vout fill sentinel.
   Let kk := if multi then k else 1.
@@ -59,20 +59,20 @@ Section Main.
   Lemma main_tol t : t < length vout ->
     let cell := nth t (o_cells o) ([], []) in
     (exists s, valid_at vout t /\ valid_at vin s /\
-        (forall s', valid_at vin s' -> (b * d2 t s <= a * d2 t s' + c)%Z) /\ (b * d2 t s <= a * r2 + c)%Z /\
+        (forall s', valid_at vin s' -> (b * d2 t s <= a * d2 t s' + ca)%Z) /\ (b * d2 t s <= a * r2 + ca)%Z /\
         fst cell = nth s rows [] /\
         snd cell = match mrows with Some mm => nth s mm [] | None => repeat false kk end)
     \/
-    ((~ valid_at vout t \/ forall s', valid_at vin s' -> (b * r2 <= a * d2 t s' + c)%Z) /\
+    ((~ valid_at vout t \/ forall s', valid_at vin s' -> (b * r2 <= a * d2 t s' + ca)%Z) /\
      (forall f, fill = Some f -> fst cell = repeat f kk) /\
      (fill = None -> snd cell = repeat true kk)).
   Proof.
     intros Ht cell.
     assert (Hnos' : fill = None -> forall s, In s (compact vin) -> forall v, In v (src_vals rows s) -> veqb v sentinel = false).
     { intros Hf s Hs v Hv. apply (Hnosent Hf s); [apply in_compact; exact Hs|exact Hv]. }
-    assert (Hknn' : forall t, In t (compact vout) -> knn_spec_tol a b c r2 (d2 t) (compact vin) (knn (compact vin) t)).
+    assert (Hknn' : forall t, In t (compact vout) -> knn_spec_tol a b ca r2 (d2 t) (compact vin) (knn (compact vin) t)).
     { intros t' Ht'. apply Hknn. apply in_compact; exact Ht'. }
-    destruct (nn_is_nearest_or_fill veqb vzero vone Hzero Hone a b c r2 d2 tshape dtype multi k rows mrows vin vout fill
+    destruct (nn_is_nearest_or_fill veqb vzero vone Hzero Hone a b ca r2 d2 tshape dtype multi k rows mrows vin vout fill
                 sentinel Hwf Hsent Hnos' knn Hknn' t Ht) as [(s & Hv & Hs & Hmin & Hr & Hf & Hm)|(Hc & Hf & Hm)].
     - left. exists s. split; [split; assumption|]. split; [apply in_compact; exact Hs|].
       split; [intros s' Hs'; apply Hmin; apply in_compact; exact Hs'|]. split; [exact Hr|]. split; [exact Hf|exact Hm].
